@@ -13,9 +13,10 @@ for D in /verif/seeded/C*_*; do
   RES=""
   for c in $P $EXTRA; do
     [ -f /verif/harness/$(echo $c | tr 'A-Z' 'a-z').py ] || { RES="$RES $c:no-check"; continue; }
-    R=$(/verif/tools/try_mutant.sh $N $c 2>&1 | grep -c "VIOLATION")
-    NF=$(/bin/true)
-    if [ "$R" -gt 0 ]; then RES="$RES $c:CAUGHT"; else RES="$RES $c:missed"; fi
+    L=$(/verif/tools/try_mutant.sh $N $c 2>&1 | grep "VIOLATION")
+    if [ -z "$L" ]; then RES="$RES $c:missed";
+    elif echo "$L" | grep -qv no-failing-input-found; then RES="$RES $c:CAUGHT(input)";
+    else RES="$RES $c:CAUGHT(no-failing-input-found)"; fi
   done
   echo "| $N | $P | $T |$RES |" >> $OUT
   echo "$N $RES"
